@@ -137,10 +137,47 @@ def _rename_objects(x, ren):
             _rename_objects(y, ren)
 
 
-def inject_join_trap(rec, rng):
-    """Rename objects (and possibly one action) of a finished recipe so that two *different* ground instances have the same
-    `_`-joined name: move(X_Y, Z) / move(X, Y_Z), or with one shared type move(X_X, X) / move(X, X_X), or across two actions
-    N(X_Y) / N_X(Y).  Returns True when a trap could be injected."""
+def _compositions(n, m):
+    """All ways of cutting n tokens into m non-empty consecutive groups, as tuples of cut positions (c_1 < ... < c_{m-1})."""
+    import itertools
+
+    return list(itertools.combinations(range(1, n), m - 1))
+
+
+def clone_object(rec, template, name):
+    """Add object `name` as a twin of `template` (same type; every explicit initial-value row about a ground fluent that
+    mentions `template` is repeated for each way of replacing occurrences of `template` by `name`, so the twin is exactly
+    as (un)defined as its template)."""
+    import copy
+    import itertools
+
+    ot = next(t for o, t in rec["objects"] if o == template)
+    rec["objects"].append([name, copy.deepcopy(ot)])
+    rows = []
+    for fe, val in rec.get("init", []):
+        pos = [k for k in range(2, len(fe)) if fe[k] == ["o", template]]
+        for n in range(1, len(pos) + 1):
+            for sub in itertools.combinations(pos, n):
+                fe2 = copy.deepcopy(fe)
+                for k in sub:
+                    fe2[k] = ["o", name]
+                rows.append([fe2, copy.deepcopy(val)])
+    rec.setdefault("init", []).extend(rows)
+
+
+JOIN_WAYS = [2, 2, 3, 3, 3, 4]
+MAX_TRAP_OBJECTS = 9  # cloned objects are only added while the problem stays below this many objects
+
+
+def inject_join_trap(rec, rng, ways=None):
+    """Rename objects (cloning some when a parameter domain is too small) and possibly actions of a finished recipe so that
+    k = 2..4 *different* ground instances share one `_`-joined name.  Three families, for a token sequence s_1 .. s_n of
+    fresh stems (all different, or all the same stem when the parameter domains share enough objects):
+      split  : one action with a run of m = 2 or 3 adjacent user-typed parameters; k different ways of cutting the token
+               sequence into m groups give k argument tuples with the same join — move(X, Y_Z_W) / move(X_Y, Z_W) /
+               move(X_Y_Z, W);  mv(X, Y, Z_W) / mv(X, Y_Z, W) / mv(X_Y, Z, W);  move(X, X_X) / move(X_X, X);
+      across : k one-parameter actions N, N_X, N_X_Y with arguments X_Y_Z, Y_Z, Z.
+    Returns the number of coinciding instances built (0 when no trap could be injected)."""
     fathers = dict((n, f) for n, f in rec["types"])
 
     def dom(t):
@@ -167,61 +204,106 @@ def inject_join_trap(rec, rng):
                 return out
         return None
 
-    acts = [a for a in rec["actions"] if "duration" not in a]
+    def is_user(p):
+        return isinstance(p[1], list) and p[1][0] == "user"
+
+    k = ways or rng.choice(JOIN_WAYS)
+    acts = list(rec["actions"])
     rng.shuffle(acts)
-    ren = None
+    # ---- family "split" ----------------------------------------------------------------------------------------
+    plan = None  # (needs: list of (type name, object name wanted)), action renames
     for a in acts:
-        up = [(i, p) for i, p in enumerate(a["params"]) if isinstance(p[1], list) and p[1][0] == "user"]
-        if len(a["params"]) == 2 and len(up) == 2:
-            d1, d2 = dom(up[0][1][1][1]), dom(up[1][1][1][1])
-            st = fresh_stems(3)
-            if st is None:
-                return False
-            X, Y, Z = st
-            both = [o for o in d1 if o in d2]
-            if len(both) >= 2:
-                o1, o2 = rng.sample(both, 2)
-                ren = {o1: X, o2: f"{X}_{X}"}  # (X_X, X) and (X, X_X)
-                break
-            if len(d1) >= 2 and len(d2) >= 2:
-                p, q = rng.sample(d1, 2)
-                rs = [o for o in d2 if o not in (p, q)]
-                if len(rs) >= 2:
-                    r, s_ = rng.sample(rs, 2)
-                    ren = {p: f"{X}_{Y}", q: X, r: Z, s_: f"{Y}_{Z}"}
-                    break
-    if ren is None:
-        one = [a for a in acts if len(a["params"]) == 1 and isinstance(a["params"][0][1], list) and a["params"][0][1][0] == "user"]
-        if len(one) >= 2:
-            a1, a2 = rng.sample(one, 2)
-            d1, d2 = dom(a1["params"][0][1][1]), dom(a2["params"][0][1][1])
-            st = fresh_stems(2)
-            c1 = [o for o in d1]
-            c2 = [o for o in d2]
-            if st and c1 and c2:
-                X, Y = st
-                o1 = rng.choice(c1)
-                rest = [o for o in c2 if o != o1]
-                if rest:
-                    o2 = rng.choice(rest)
-                    ren = {o1: f"{X}_{Y}", o2: Y}  # a1(X_Y) and a1_X(Y)
-                    new_action_name = f"{a1['name']}_{X}"
-                    if new_action_name in used:
-                        return False
-                    m = rec.get("metric")
-                    if m and m.get("kind") == "costs" and a2["name"] in m["costs"]:
-                        m["costs"][new_action_name] = m["costs"].pop(a2["name"])
-                    a2["name"] = new_action_name
-    if ren is None:
-        return False
-    if any(v in used for v in ren.values()):
-        return False
+        ps = a["params"]
+        if not (2 <= len(ps) <= 3):
+            continue
+        runs = []
+        for m in (3, 2):
+            for i in range(0, len(ps) - m + 1):
+                if all(is_user(p) for p in ps[i : i + m]):
+                    runs.append((i, m))
+        if not runs:
+            continue
+        i0, m = rng.choice(runs)
+        n = k + 1 if m == 2 else (4 if k <= 3 else 5)
+        comps = _compositions(n, m)
+        rng.shuffle(comps)
+        comps = comps[:k]
+        doms = [dom(ps[i0 + j][1][1]) for j in range(m)]
+        common = [o for o in doms[0] if all(o in d for d in doms[1:])]
+        same_stem = len(common) >= 2 and rng.random() < 0.35
+        st = fresh_stems(1 if same_stem else n)
+        if st is None:
+            return 0
+        toks = st * n if same_stem else st
+        wanted = []  # per position: list of names (in order of first use)
+        for j in range(m):
+            names = []
+            for c in comps:
+                cuts = (0,) + c + (n,)
+                nm = "_".join(toks[cuts[j] : cuts[j + 1]])
+                if nm not in names:
+                    names.append(nm)
+            wanted.append(names)
+        plan = ("split", a, i0, m, wanted, common if same_stem else None)
+        break
+    ren, clones = {}, []
+    if plan is not None:
+        _, a, i0, m, wanted, shared = plan
+        taken = set()
+        budget = max(0, MAX_TRAP_OBJECTS - len(rec["objects"]))
+        for j in range(m):
+            # same-stem families use one object at several positions: only objects common to all the domains are used
+            d = shared if shared is not None else dom(a["params"][i0 + j][1][1])
+            for nm in wanted[j]:
+                if nm in taken:
+                    continue
+                free = [o for o in d if o not in ren]
+                if free:
+                    o = rng.choice(free)
+                    ren[o] = nm
+                    taken.add(nm)
+                elif d and budget > 0:
+                    clones.append((rng.choice(d), nm))
+                    taken.add(nm)
+                    budget -= 1
+                else:
+                    return 0
+    else:
+        # ---- family "across" -----------------------------------------------------------------------------------
+        one = [a for a in acts if len(a["params"]) == 1 and is_user(a["params"][0])]
+        k = min(k, len(one))
+        if k < 2:
+            return 0
+        chosen = rng.sample(one, k)
+        st = fresh_stems(k)
+        if st is None:
+            return 0
+        renames = []
+        for j, a in enumerate(chosen):
+            d = [o for o in dom(a["params"][0][1][1]) if o not in ren]
+            if not d:
+                return 0
+            ren[rng.choice(d)] = "_".join(st[j:])
+            if j > 0:
+                renames.append((a, "_".join([chosen[0]["name"]] + st[:j])))
+        if any(nn in used for _, nn in renames):
+            return 0
+        m_ = rec.get("metric")
+        for a, nn in renames:
+            if m_ and m_.get("kind") == "costs" and a["name"] in m_["costs"]:
+                m_["costs"][nn] = m_["costs"].pop(a["name"])
+            a["name"] = nn
+    new_names = list(ren.values()) + [nm for _, nm in clones]
+    if any(v in used for v in new_names) or len(set(new_names)) != len(new_names):
+        return 0
+    for tpl, nm in clones:
+        clone_object(rec, tpl, nm)
     for o in rec["objects"]:
         o[0] = ren.get(o[0], o[0])
-    for k in ("fluents", "actions", "init", "goals", "invariants", "traj", "metric"):
-        if rec.get(k) is not None:
-            _rename_objects(rec[k], ren)
-    return True
+    for key in ("fluents", "actions", "init", "goals", "invariants", "traj", "metric", "timed_effects", "timed_goals"):
+        if rec.get(key) is not None:
+            _rename_objects(rec[key], ren)
+    return k
 
 
 def concat_traps(names):
